@@ -139,7 +139,7 @@ func (v *Verifier) VerifyStructural(name string, propNames []string) *FuncResult
 		for _, pn := range propNames {
 			if fc := v.cs.Funcs[pn]; fc != nil {
 				if fn := v.findFunc(fc.Pkg, fc.Name); fn != nil {
-					under[fn.String()] = true
+					under[oldName(fn)] = true
 				}
 			}
 		}
@@ -187,7 +187,7 @@ func (v *Verifier) VerifyStructural(name string, propNames []string) *FuncResult
 				for _, in := range b.Instrs {
 					if rg, ok := in.(*ssa.Range); ok {
 						if _, isMap := rg.X.Type().Underlying().(*types.Map); isMap {
-							bad = append(bad, fn.String()+" ("+v.posStr(rg.Pos())+")")
+							bad = append(bad, oldName(fn)+" ("+v.posStr(rg.Pos())+")")
 						}
 					}
 				}
@@ -219,13 +219,13 @@ func (v *Verifier) VerifyStructural(name string, propNames []string) *FuncResult
 					switch in := in.(type) {
 					case *ssa.Call:
 						callee := in.Call.StaticCallee()
-						if callee == nil || callee.String() != mp+"/sizes.newItem" {
+						if callee == nil || oldName(callee) != mp+"/sizes.newItem" {
 							continue
 						}
 						n++
 						args := in.Call.Args
 						if len(args) != 8 {
-							bad = append(bad, fn.String()+": newItem with "+fmt.Sprint(len(args))+" arguments")
+							bad = append(bad, oldName(fn)+": newItem with "+fmt.Sprint(len(args))+" arguments")
 							continue
 						}
 						k, isConst := args[7].(*ssa.Const)
@@ -236,10 +236,10 @@ func (v *Verifier) VerifyStructural(name string, propNames []string) *FuncResult
 							}
 						}
 						if !okScale {
-							bad = append(bad, fn.String()+" ("+v.posStr(in.Pos())+"): reference value is not a positive finite constant")
+							bad = append(bad, oldName(fn)+" ("+v.posStr(in.Pos())+"): reference value is not a positive finite constant")
 						}
 						if !isHumanerGlobal(args[5]) {
-							bad = append(bad, fn.String()+" ("+v.posStr(in.Pos())+"): humaner is not counts.Metric / counts.Binary")
+							bad = append(bad, oldName(fn)+" ("+v.posStr(in.Pos())+"): humaner is not counts.Metric / counts.Binary")
 						}
 						// bytes are scaled by powers of 1024, counts by powers of
 						// 1000 (C12): unit "B" goes with counts.Binary and the
@@ -251,9 +251,9 @@ func (v *Verifier) VerifyStructural(name string, propNames []string) *FuncResult
 							}
 						}
 						if uk, ok := args[6].(*ssa.Const); !ok || uk.Value == nil {
-							bad = append(bad, fn.String()+" ("+v.posStr(in.Pos())+"): unit is not a constant")
+							bad = append(bad, oldName(fn)+" ("+v.posStr(in.Pos())+"): unit is not a constant")
 						} else if us := uk.Value.ExactString(); !(us == `"B"` && humanerName == "Binary") && !(us == `""` && humanerName == "Metric") {
-							bad = append(bad, fn.String()+" ("+v.posStr(in.Pos())+"): unit "+us+" is paired with counts."+humanerName+" (bytes take binary prefixes, counts take metric ones)")
+							bad = append(bad, oldName(fn)+" ("+v.posStr(in.Pos())+"): unit "+us+" is paired with counts."+humanerName+" (bytes take binary prefixes, counts take metric ones)")
 						}
 						// the object cited beside a metric is that metric's own
 						// witness: HistorySize field X is cited with field
@@ -302,11 +302,11 @@ func (v *Verifier) VerifyStructural(name string, propNames []string) *FuncResult
 								want = map[string]bool{"max_parent_count": true}
 							}
 							if vf == "" || !want[tag] {
-								bad = append(bad, fn.String()+" ("+v.posStr(in.Pos())+"): item "+sym+" reports field "+vf+" (JSON v1 key "+tag+")")
+								bad = append(bad, oldName(fn)+" ("+v.posStr(in.Pos())+"): item "+sym+" reports field "+vf+" (JSON v1 key "+tag+")")
 							} else if histRawTags[vf] != tag {
 								// a measurement is always present in JSON v1 (0 when
 								// there is none); only witnesses may be omitted
-								bad = append(bad, fn.String()+" ("+v.posStr(in.Pos())+"): the JSON v1 key of "+vf+" carries options ("+histRawTags[vf]+"): the measurement would be left out when it is 0")
+								bad = append(bad, oldName(fn)+" ("+v.posStr(in.Pos())+"): the JSON v1 key of "+vf+" carries options ("+histRawTags[vf]+"): the measurement would be left out when it is 0")
 							}
 							symbolsSeen[sym]++
 						}
@@ -321,16 +321,16 @@ func (v *Verifier) VerifyStructural(name string, propNames []string) *FuncResult
 							if okW && !strings.HasSuffix(histRawTags[pf], ",omitempty") {
 								// --names=none: no object is cited (C08) -- a nil
 								// witness must not appear in JSON v1
-								bad = append(bad, fn.String()+" ("+v.posStr(in.Pos())+"): witness field "+pf+" is not omitted from JSON v1 when there is no witness (tag "+histRawTags[pf]+")")
+								bad = append(bad, oldName(fn)+" ("+v.posStr(in.Pos())+"): witness field "+pf+" is not omitted from JSON v1 when there is no witness (tag "+histRawTags[pf]+")")
 							}
 							if !okW {
-								bad = append(bad, fn.String()+" ("+v.posStr(in.Pos())+"): metric "+vf+" is cited with witness field "+pf)
+								bad = append(bad, oldName(fn)+" ("+v.posStr(in.Pos())+"): metric "+vf+" is cited with witness field "+pf)
 							}
 						}
 					case *ssa.Store:
 						if g, ok := in.Addr.(*ssa.Global); ok && g.Pkg.Pkg.Path() == mp+"/counts" && (g.Name() == "Metric" || g.Name() == "Binary") {
-							if fn.String() != mp+"/counts.init" {
-								bad = append(bad, fn.String()+" writes counts."+g.Name())
+							if oldName(fn) != mp+"/counts.init" {
+								bad = append(bad, oldName(fn)+" writes counts."+g.Name())
 							}
 						}
 					}
@@ -412,7 +412,7 @@ func (v *Verifier) VerifyStructural(name string, propNames []string) *FuncResult
 			return nil
 		}
 		allowedWriter := func(fn *ssa.Function) bool {
-			s := fn.String()
+			s := oldName(fn)
 			return strings.HasSuffix(s, ".init") || strings.Contains(s, ".init$") || s == mp+"/git.findGitBin$1"
 		}
 		for _, fn := range v.moduleFuncs() {
@@ -448,7 +448,7 @@ func (v *Verifier) VerifyStructural(name string, propNames []string) *FuncResult
 								}
 							}
 							if gg := rootGlobal(a); gg != nil {
-								if callee := in.Call.StaticCallee(); callee != nil && callee.Pkg != nil && (callee.Pkg.Pkg.Path() == "sync/atomic" || (callee.Pkg.Pkg.Path() == "sync" && strings.Contains(callee.String(), "Once"))) {
+								if callee := in.Call.StaticCallee(); callee != nil && callee.Pkg != nil && (callee.Pkg.Pkg.Path() == "sync/atomic" || (callee.Pkg.Pkg.Path() == "sync" && strings.Contains(oldName(callee), "Once"))) {
 									continue
 								}
 								g, what = gg, "passes to "+calleeName(&in.Call)+" a pointer or slice into"
@@ -460,7 +460,7 @@ func (v *Verifier) VerifyStructural(name string, propNames []string) *FuncResult
 					}
 					nGlob++
 					if !allowedWriter(fn) {
-						bad = append(bad, fn.String()+" ("+v.posStr(in.Pos())+") "+what+" package-level variable "+g.Pkg.Pkg.Name()+"."+g.Name())
+						bad = append(bad, oldName(fn)+" ("+v.posStr(in.Pos())+") "+what+" package-level variable "+g.Pkg.Pkg.Name()+"."+g.Name())
 					}
 				}
 			}
@@ -605,7 +605,7 @@ func (v *Verifier) VerifyStructural(name string, propNames []string) *FuncResult
 				nSend++
 				for _, sl := range sentSlices(val, 0) {
 					if o := origin(sl, 0, map[ssa.Value]bool{}); o != "" {
-						bad = append(bad, fn.String()+" ("+v.posStr(at.Pos())+"): a slice sent over a channel is cut from "+o)
+						bad = append(bad, oldName(fn)+" ("+v.posStr(at.Pos())+"): a slice sent over a channel is cut from "+o)
 					}
 				}
 			}
@@ -679,10 +679,10 @@ func (v *Verifier) VerifyStructural(name string, propNames []string) *FuncResult
 						case *ssa.DebugRef:
 						case *ssa.Call:
 							if callee := r.Call.StaticCallee(); callee == nil || callee.Pkg == nil || callee.Pkg.Pkg.Path() != "sync/atomic" {
-								bad = append(bad, fn.String()+" passes "+k+" to a non-atomic call ("+v.posStr(r.Pos())+")")
+								bad = append(bad, oldName(fn)+" passes "+k+" to a non-atomic call ("+v.posStr(r.Pos())+")")
 							}
 						default:
-							bad = append(bad, fn.String()+" accesses "+k+" without sync/atomic ("+v.posStr(fa.Pos())+")")
+							bad = append(bad, oldName(fn)+" accesses "+k+" without sync/atomic ("+v.posStr(fa.Pos())+")")
 						}
 					}
 				}
@@ -710,7 +710,7 @@ func (v *Verifier) VerifyStructural(name string, propNames []string) *FuncResult
 					return true
 				}
 			}
-			return fn.String() == mp+"/sizes.NewPathResolver"
+			return oldName(fn) == mp+"/sizes.NewPathResolver"
 		}
 		var bad []string
 		n := 0
@@ -736,21 +736,21 @@ func (v *Verifier) VerifyStructural(name string, propNames []string) *FuncResult
 							}
 							n++
 							if !allowed(fn) {
-								bad = append(bad, fn.String()+" writes or leaks "+nt.Obj().Name()+"."+st.Field(in.Field).Name()+" ("+v.posStr(in.Pos())+")")
+								bad = append(bad, oldName(fn)+" writes or leaks "+nt.Obj().Name()+"."+st.Field(in.Field).Name()+" ("+v.posStr(in.Pos())+")")
 							}
 						}
 					case *ssa.MapUpdate:
 						if isSoughtMap(in.Map.Type(), mp) {
 							n++
 							if !allowed(fn) {
-								bad = append(bad, fn.String()+" updates a soughtPaths-typed map ("+v.posStr(in.Pos())+")")
+								bad = append(bad, oldName(fn)+" updates a soughtPaths-typed map ("+v.posStr(in.Pos())+")")
 							}
 						}
 					case *ssa.Call:
 						if bi, ok := in.Call.Value.(*ssa.Builtin); ok && bi.Name() == "delete" && len(in.Call.Args) > 0 && isSoughtMap(in.Call.Args[0].Type(), mp) {
 							n++
 							if !allowed(fn) {
-								bad = append(bad, fn.String()+" deletes from a soughtPaths-typed map ("+v.posStr(in.Pos())+")")
+								bad = append(bad, oldName(fn)+" deletes from a soughtPaths-typed map ("+v.posStr(in.Pos())+")")
 							}
 						}
 					}
